@@ -16,9 +16,28 @@ solver-free shortcut of `check_unsat_asserts`).  GIVEN the compile contract on a
 — each verification condition "holds" (its asserts are unsatisfiable, `checkUnsat = true`) exactly when the
 corresponding statement about the concrete authorizer model `Cedar.isAuthorized` (Authorizer.lean, C01) is true.
 
-NOT PROVED, NOT MODELLED: that the Rust compiler `Expr → Term` and the term factory's constant folding actually meet
-that contract.  That is ≈ 15 kLoC of Rust; it is *sampled* by the differential run of `./check C18`
-(harness/src/c18.rs: real `SymEnv::from_concrete_env`, both compilers, the real evaluator and authorizer).
+PROVED HERE FOR A FIRST FRAGMENT OF THE COMPILER (`Cedar.SymC`, Cedar/SymCompile.lean; mirrors symcc/compiler.rs
+`compile_prim/var/app1/app2/if/and/or` + `compile`, symcc/factory.rs `not and or eq ite bv* option_get is_none if_false
+if_some`, with `App` nodes and every non-literal branch kept): expressions `SFrag` = bool / long / string / entity
+literals, `principal action resource`, `! - && || if == < <= + - *`.
+  * `compile_correct_fragment`: if the compiler ACCEPTS `e ∈ SFrag` on the literal environment of `req`, the term it
+    builds is the folded literal `some (lit v)` / `none` exactly as `evaluate` gives `v` / errors (overflow → `none`).
+  * ill-typed inputs: the compiler either REJECTS (`CompileError::TypeError`; e.g. `1 + true`, `true && 1`,
+    `(MAX + 1) + true` — although evaluate reports the overflow first) or accepts and folds because a constant guard /
+    short-circuit drops the ill-typed part (`false && (1 + true)` ↦ `some false`, `1 == "a"` ↦ `some false`,
+    `if 1 < 2 then 1 else true` ↦ `some 1`); an entity literal outside the schema's types / enum members is rejected
+    although evaluate succeeds.  These are `example`s; NO theorem characterises when the compiler rejects, and
+    "a fragment expression never yields the model-only error `.outside`" is not proved either (checked by the
+    differential run only: the driver would print `(outside-model)`).
+  * `compilePolicy_discharged`, `vc_skeleton_correct_fragment`: for policies whose conditions are in `SFrag`, the
+    compile contract (`compilePolicy`) is what the modelled compiler produces, so `vc_skeleton_correct` holds with the
+    enforcer assumption `hEnf` as the only hypothesis.
+
+STILL NOT PROVED, NOT MODELLED: the compiler outside `SFrag` (context, attributes, `has`, `in`, tags, sets, records,
+`like`, `is`, extension functions), symccopt/compiler.rs' footprint, the symbolizer (`SymEnv::from_concrete_env`) and
+the enforcer.  There the contract is *sampled* by the differential run of `./check C18` (harness/src/c18.rs: real
+`SymEnv::from_concrete_env`, both compilers, the real evaluator and authorizer); the fragment itself is additionally
+checked line by line against the Rust compiler by stream `c18symc`.
 -/
 namespace Cedar.C18
 open Cedar Cedar.SymCC
